@@ -575,8 +575,10 @@ class Engine:
                 if op == 'BitXor': return S(x != y, 'bool')
             r = {'Add': x + y, 'Sub': x - y, 'Mul': x * y, 'AddWithOverflow': x + y, 'SubWithOverflow': x - y,
                  'MulWithOverflow': x * y, 'BitAnd': x & y, 'BitOr': x | y, 'BitXor': x ^ y}.get(op)
-            if op == 'Div': r = int(x / y) if y else None
-            if op == 'Rem': r = x - int(x / y) * y if y else None
+            if op == 'Div': r = (abs(x) // abs(y)) * (1 if (x >= 0) == (y >= 0) else -1) if y else None
+            if op == 'Rem': r = x - ((abs(x) // abs(y)) * (1 if (x >= 0) == (y >= 0) else -1)) * y if y else None
+            if op in ('Shl', 'Shr') and 0 <= y < BITS.get(ty, 64):
+                r = (x << y) if op == 'Shl' else (x >> y)           # x is the mathematical value of the type: >> is arithmetic for signed, logical for unsigned
             if r is None: raise Unsupported('binop ' + op)
             w = wrap(r, ty)
             if op.endswith('WithOverflow'):
